@@ -36,12 +36,16 @@ Definition looks_like_http2_response (d : bytes) : bool :=
   | _ => false
   end.
 
-(* the methods the *gate* lists (16) *)
+(* the methods the gate lists (18 since the fix "MKCALENDAR and REPORT requests pass the HTTP/1 gate") *)
 Definition gate_methods : list bytes :=
   [bs "GET"; bs "POST"; bs "PUT"; bs "DELETE"; bs "HEAD"; bs "OPTIONS"; bs "PATCH"; bs "TRACE";
-   bs "CONNECT"; bs "PROPFIND"; bs "PROPPATCH"; bs "MKCOL"; bs "COPY"; bs "MOVE"; bs "LOCK"; bs "UNLOCK"].
-(* the methods the *parser* accepts (18): is_valid_method *)
-Definition parser_methods : list bytes := gate_methods ++ [bs "MKCALENDAR"; bs "REPORT"].
+   bs "CONNECT"; bs "PROPFIND"; bs "PROPPATCH"; bs "MKCOL"; bs "COPY"; bs "MOVE"; bs "LOCK"; bs "UNLOCK";
+   bs "MKCALENDAR"; bs "REPORT"].
+(* the methods the parser accepts (18): is_valid_method *)
+Definition parser_methods : list bytes :=
+  [bs "GET"; bs "POST"; bs "PUT"; bs "DELETE"; bs "HEAD"; bs "OPTIONS"; bs "PATCH"; bs "TRACE";
+   bs "CONNECT"; bs "PROPFIND"; bs "PROPPATCH"; bs "MKCOL"; bs "COPY"; bs "MOVE"; bs "LOCK"; bs "UNLOCK";
+   bs "MKCALENDAR"; bs "REPORT"].
 
 Definition is_http1x (v : bytes) : bool := bytes_eqb v (bs "HTTP/1.0") || bytes_eqb v (bs "HTTP/1.1").
 
